@@ -167,6 +167,11 @@ class Sys(e1.TimedSys):
                             # StopSubscribe follows; the idle check below decides
                             pass
                         m.server[sname].add(name)
+                        prev = m.last_sub.get((name, sname))
+                        if prev is not None and self.refresh is not None and t - prev > self.refresh + self.loop._clock_resolution:
+                            # (last_sub only holds pairs that were requested and alive without interruption)
+                            self.viol("refresh", "late", f"{(name, sname)}: Subscribe at {t}, the one before at {prev}, refresh "
+                                      f"interval {self.refresh}")
                         m.last_sub[(name, sname)] = t
         self.last_kinds = kinds
         self.outcome = tuple((k[2] != 0) for k in kinds)
